@@ -8,7 +8,7 @@ rows = []
 for name in names:
     d = f'/verif/seeded/{name}'
     meta = json.load(open(f'{d}/meta.json'))
-    props = [p for p in meta['breaks_property'] if p in registered]
+    props = [p for p in meta['breaks_property'] + meta.get('also_checked', []) if p in registered]
     wt, ev = f'/var/tmp/rc_{name}', f'/var/tmp/rcev_{name}'
     subprocess.run(f'git -C /repo worktree remove --force {wt}', shell=True, capture_output=True)
     subprocess.run(f'git -C /repo worktree add -q --detach {wt} HEAD', shell=True, check=True)
@@ -27,9 +27,9 @@ for name in names:
         viol = [l for l in out if l.startswith('VIOLATION property=')]
         which = sorted({l.split('property=')[1].split(' ')[0] for l in viol})
         meta['recheck'] = {'applies': True, 'repo_head': subprocess.check_output(['git', '-C', '/repo', 'rev-parse', '--short', 'HEAD'], text=True).strip(),
-                           'detected': bool(viol), 'by_property': which, 'rules': rules,
+                           'detected': meta['breaks_property'][0] in which, 'detected_by_related': bool(viol), 'by_property': which, 'rules': rules,
                            'reports': [l[:300] for l in out if l.startswith(('VIOLATION rule=', 'UNDECIDED rule='))][:4]}
-        rows.append((name, ','.join(props), 'DETECTED' if viol else 'MISSED', ' '.join(which) + ' / ' + ' '.join(rules)))
+        rows.append((name, ','.join(props), 'DETECTED' if meta['breaks_property'][0] in which else ('RELATED-ONLY' if viol else 'MISSED'), ' '.join(which) + ' / ' + ' '.join(rules)))
     finally:
         subprocess.run(f'git -C /repo worktree remove --force {wt}', shell=True, capture_output=True)
         shutil.rmtree(ev, ignore_errors=True)
